@@ -8,7 +8,7 @@ import hv, iogen, iorun, iosuite, ioeval
 def build_cases(ctx, reg):
     g = iogen.Gen(ctx.rng, reg)
     quick = ctx.tier == "quick"
-    cases = iosuite.corpus_cases()
+    cases = iosuite.corpus_cases("C02")
     cases += iosuite.probe_family(g)
     cases += iosuite.graphs_family(g, 25 if quick else 400)
     cases += iosuite.strings_family(g)
